@@ -34,6 +34,10 @@ def _commutative_body(stmts):
         if isinstance(st, ast.Expr) and isinstance(st.value, ast.Call) and isinstance(st.value.func, ast.Attribute) \
                 and st.value.func.attr in ("add", "discard"):
             continue
+        # d.pop(k, None) as a statement is `del d[k]` for a key that may be absent: a deletion, commutative
+        if isinstance(st, ast.Expr) and isinstance(st.value, ast.Call) and isinstance(st.value.func, ast.Attribute) \
+                and st.value.func.attr == "pop" and len(st.value.args) == 2:
+            continue
         if isinstance(st, ast.If) and _commutative_body(st.body) and _commutative_body(st.orelse):
             continue
         if isinstance(st, ast.For) and _commutative_body(st.body) and not st.orelse:
